@@ -13,7 +13,7 @@ import sys, re, struct, argparse, subprocess, hashlib, json
 sys.path.insert(0, __import__('os').path.dirname(__file__))
 from irparse import *
 
-LIBC_PASSTHRU = {'strcmp', 'strncmp', 'memcmp', 'memcpy', 'memmove', 'memset', 'abs', 'strcpy', 'strncpy',
+LIBC_PASSTHRU = {'malloc', 'calloc', 'realloc', 'free', 'strcmp', 'strncmp', 'memcmp', 'memcpy', 'memmove', 'memset', 'abs', 'strcpy', 'strncpy',
                  'strchr', 'memchr'}
 INTRIN_DROP = ('llvm.lifetime.', 'llvm.dbg.', 'llvm.stackrestore', 'llvm.assume', 'llvm.prefetch',
                'llvm.experimental.noalias.scope.decl', 'llvm.donothing', 'llvm.var.annotation', 'llvm.invariant.')
@@ -118,6 +118,7 @@ class Emitter:
         s.typeinfos = []   # typeinfo global names, index+1 = id
         s.unmodelled = set()
         s.coroutine = set(args.coroutine); s.hook = set(args.hook_access)
+        s.fp_slots = []    # (lvalue, bits, width) of float constants inside global data
         s.fnids = {}       # address-taken function -> fake address
         s.icalls = {}      # signature key -> (name, ret ctype, [param ctypes], vararg)
 
@@ -362,24 +363,27 @@ class Emitter:
             return s.memtype_decl(Ty('array', rt.n, rt.el), name)
         if rt.k == 'opaque': return 'char %s[64]' % name
         return '%s %s' % (s.ctype(rt), name)
-    def mem_init(s, v):
-        """initializer for memory object (arrays as plain brace lists)"""
+    def mem_init(s, v, lv=None):
+        """initializer for memory object (arrays as plain brace lists); lv = C lvalue of this element (to record FP slots)"""
         k, x, t = v; rt = s.L.resolve(t)
         if rt.k in ('array', 'vector'):
             if k == 'cstr': return '{' + ','.join(str(b) for b in s.cstr_bytes(x)) + '}'
             if k in ('zero', 'undef'): return '{0}'
-            return '{' + ', '.join(s.mem_init(e) for e in x) + '}'
+            return '{' + ', '.join(s.mem_init(e, None if lv is None else '%s[%d]' % (lv, i)) for i, e in enumerate(x)) + '}'
         if rt.k == 'struct':
             if k in ('zero', 'undef'): return '{0}'
-            return '{' + ', '.join(s.mem_init_field(e) for e in x) + '}'
-        if rt.k == 'double': return '0x%016xULL' % fbits64(x) if k == 'fp' else '0'
-        if rt.k == 'float': return '0x%08xU' % fbits32(x) if k == 'fp' else '0'
+            return '{' + ', '.join(s.mem_init_field(e, None if lv is None else '%s.f%d' % (lv, i)) for i, e in enumerate(x)) + '}'
+        if rt.k in ('double', 'float'):
+            if k != 'fp': return '0'
+            bits = fbits64(x) if rt.k == 'double' else fbits32(x)
+            if lv is not None and bits != 0: s.fp_slots.append((lv, bits, 64 if rt.k == 'double' else 32))
+            return ('0x%016xULL' if rt.k == 'double' else '0x%08xU') % bits
         return s.val(v)
-    def mem_init_field(s, v):
+    def mem_init_field(s, v, lv=None):
         rt = s.L.resolve(v[2])
         if rt.k == 'array':
-            return '{' + s.mem_init(v) + '}'   # struct agg wraps array in member a
-        return s.mem_init(v)
+            return '{' + s.mem_init(v, None if lv is None else lv + '.a') + '}'   # struct agg wraps array in member a
+        return s.mem_init(v, lv)
 
     def ref_global(s, n):
         if n not in s.refd:
@@ -420,7 +424,7 @@ class Emitter:
                 if g['external'] or g['init'] is None:
                     gdefs.append((n, 'extern ' + s.memtype_decl(g['ty'], s.gname(n)) + ';', None)); continue
                 decl = s.memtype_decl(g['ty'], s.gname(n))
-                init = s.mem_init(g['init'])
+                init = s.mem_init(g['init'], s.gname(n))
                 if s.L.resolve(g['ty']).k == 'struct' and g['init'][0] not in ('zero', 'undef'):
                     pass
                 gdefs.append((n, decl, init))
@@ -442,6 +446,8 @@ class Emitter:
         o.append('int ir_typeinfo_id(char* p) {\n')
         for t, i in ids.items(): o.append('  if (p == (char*)&%s) return %d;\n' % (s.gname(t), i))
         o.append('  return -1;\n}\n')
+        # float constants stored in global data are handles too: (re)materialised by the runtime after every reset
+        o.append('void ir_fp_globals_init(void) {\n' + ''.join('  %s = vr_const%d(0x%xULL);\n' % (lv, w, b) for lv, b, w in s.fp_slots) + '}\n')
         ip, ib = s.emit_icalls()
         o.append(ip)
         o.extend(bodies)
@@ -732,6 +738,10 @@ class FuncEmit:
                 sz = E.L.size(info['byval']); t = s.tmp()
                 s.w('char* %s = (char*)vr_alloca(%d); memcpy(%s, %s, %d);' % (t, sz, t, e, sz)); e = t
             cargs.append(e)
+        if name in ('sqrt', 'ceil', 'floor', 'fabs') and name not in E.mod.funcs:
+            finish('vr_%s64(%s)' % (name, cargs[0]), False); return
+        if name in ('sqrtf', 'fabsf') and name not in E.mod.funcs:
+            finish('vr_%s32(%s)' % (name[:-1], cargs[0]), False); return
         if name == 'strlen' and name not in E.mod.funcs:
             finish('(uint64_t)vr_strlen(%s)' % cargs[0], False); return
         if name in ('memcpy', 'memmove', 'memset') and name not in E.mod.funcs:
